@@ -502,6 +502,14 @@ fn cmd_budget(args: &Args) {
             cases.push(json!({"run": run, "problem": p, "kmax": kmax, "resolve_k": k}));
             continue;
         }
+        // every fifth problem gets unreachable tolerances: its long run ends by lack of progress (rollback) or by a numerical
+        // checkpoint, and the budgets go all the way up to that pass
+        let mut kmax = kmax;
+        if run % 5 == 1 {
+            for k in ["tol_gap_abs", "tol_gap_rel", "tol_feas", "reduced_tol_gap_abs", "reduced_tol_gap_rel", "reduced_tol_feas"] { p.settings[k] = json!(1e-30); }
+            kmax = 60;
+            p.tag.push_str("+unreachable");
+        }
         let (l, _) = rec_ipm::budget_lines(run, &p, kmax);
         shorts += l.len().saturating_sub(1);
         lines.extend(l);
